@@ -1406,7 +1406,7 @@ def install(it):
     reg("numpy.absolute", _abs)
     reg("numpy.logical_and", logical_and)
     reg("numpy.logical_or", logical_or)
-    reg("numpy.logical_not", lambda it_, a: wrap(ops.elementwise(lambda x: _not(x), "bool", a)) if _is_arrayish(a) else _not(a))
+    reg("numpy.logical_not", np_logical_not)
     reg("numpy.isclose", np_isclose)
     reg("numpy.allclose", lambda it_, a, b, rtol=1e-05, atol=1e-08: _quant(it_, np_isclose(it_, a, b, rtol, atol), True) if _is_arrayish(a) or _is_arrayish(b) else np_isclose(it_, a, b, rtol, atol))
     reg("numpy.isfinite", np_isfinite)
@@ -1420,7 +1420,7 @@ def install(it):
     reg("numpy.concatenate", np_concatenate)
     reg("numpy.array", np_array)
     reg("numpy.asarray", np_asarray)
-    reg("numpy.arange", lambda it_, n: Arr.new(Vec(n, lambda i: i if not isinstance(i, int) else z3.IntVal(i), "int")))
+    reg("numpy.arange", np_arange)
     reg("numpy.broadcast_to", np_broadcast_to)
     reg("numpy.ldexp", np_ldexp)
     reg("numpy.frexp", np_frexp)
@@ -1515,6 +1515,21 @@ def np_array(it, v, dtype=None):
     if isinstance(v, (Arr,)):
         return Arr.new(v.vec())
     raise Unsupported("np.array")
+
+
+def np_logical_not(it, a):
+    if not _is_arrayish(a):
+        return _not(a)
+    r = wrap(ops.elementwise(lambda x: _not(x), "bool", a))
+    if isinstance(r, Arr) and isinstance(a, (Arr, Vec)):
+        r.cell.val.neg_of = _vec_of(a)
+    return r
+
+
+def np_arange(it, n):
+    v = Vec(n, lambda i: i if not isinstance(i, int) else z3.IntVal(i), "int")
+    v.is_arange = True
+    return Arr.new(v)
 
 
 def np_atleast_2d(it, v):
@@ -1648,6 +1663,11 @@ def np_where(it, cond, *rest):
     # np.where(mask)[0]: increasing enumeration of the True positions, with partial inverse
     m = _vec_of(cond)
     p = it.path
+    # the enumeration is a function of the mask: the same mask (or the negation of the same mask) gives the same array
+    wkey = ("neg", id(m.neg_of)) if getattr(m, "neg_of", None) is not None else ("pos", id(m))
+    wcache = p.ghost.setdefault("__where_cache__", {})
+    if wkey in wcache:
+        return (Arr.new(wcache[wkey][0]),)
     cnt = p.int("nnz")
     idx = p.func("where_idx", z3.IntSort(), z3.IntSort())
     inv = p.func("where_inv", z3.IntSort(), z3.IntSort())
@@ -1664,6 +1684,16 @@ def np_where(it, cond, *rest):
     v = Vec(cnt, at, "int")
     v.inverse = (lambda j: zbool(m.f(j)), lambda j: inv(j))
     v.mask = m
+    # the True positions of a mask and of its negation partition the index range (counting fact)
+    wcache[wkey] = (v, m)  # (m is kept alive so that its id is not reused)
+    counts = p.ghost.setdefault("__where_counts__", {})
+    counts[id(m)] = (m, cnt)
+    other = getattr(m, "neg_of", None)
+    if other is not None and id(other) in counts:
+        p.assume(cnt + counts[id(other)][1] == m.n)
+    for (mm, c2) in list(counts.values()):
+        if getattr(mm, "neg_of", None) is m:
+            p.assume(cnt + c2 == m.n)
     return (Arr.new(v),)
 
 
